@@ -28,8 +28,8 @@ LEVEL_TEXT = ("The tables the library runs with when it is imported with the wor
               "from the working tree's grammar in a copy that has no table file; the shipped file is compared the same way when its "
               "signature matches. Then every sequence of cache states of length <=2 (thorough 3) over {valid, as shipped, missing, stale "
               "signature, older table version} is replayed: each step starts a fresh interpreter, parses the whole "
-              "regression corpus plus generated scripts, and must return the valid-cache results and leave a table file equal to the "
-              "fresh one."
+              "regression corpus plus generated scripts, and must return the valid-cache results; a table file that carries the grammar's signature "
+              "afterwards must equal the fresh one (a file that is absent or still stale is regenerated again at the next start and is no violation)."
               " If the declared grammar cannot be turned into tables at all (PLY rejects a rule function), that is reported as a violation of the regeneration clause."
               " Cache-state sequences are also replayed inside ONE interpreter (whole workload per step, and exactly one parser per step); one stale state carries tables generated from an older grammar revision."
               " Wave 7: three more stale states carry table files generated from OTHER revisions of the grammar, chosen from PLY's own signature order: the last alternative of the last rule function missing (cached signature is a prefix of the declared one), one alternative more at the very end (declared signature is a prefix of the cached one), one alternative more in the very first rule function; the workload holds a statement that needs the production the older revision lacks."
@@ -107,6 +107,16 @@ if txt.count(doc, at) < 1:
     print('REVISE none'); sys.exit(0)
 open(path, 'w').write(txt[:at] + txt[at:].replace(doc, new, 1))
 print('REVISE ' + name)
+"""
+
+_WRITE_TAB = r"""
+import sys, os
+sys.path.insert(0, sys.argv[1])
+import logging; logging.disable(logging.CRITICAL)
+from ply import yacc
+from simple_ddl_parser import DDLParser
+o = DDLParser.__new__(DDLParser)
+yacc.yacc(module=o, debug=False, write_tables=True, outputdir=os.path.join(sys.argv[1], 'simple_ddl_parser'), errorlog=yacc.NullLogger())
 """
 
 # the same cache-state sequences inside ONE interpreter: between two steps the table file on disk is put into the next state while the
@@ -272,6 +282,16 @@ def fresh():
         if res is not None:
             small, err = _run_work(tmp, os.path.join(tmp, "work_small.json"))
             res["digests_small"] = small["digests"] if small else None
+        tabp0 = os.path.join(tmp, "simple_ddl_parser", "parsetab.py")
+        if res is not None and not os.path.exists(tabp0):
+            # the library generated tables without writing a table file (the property does not demand one): the "valid cache" state is
+            # then a file written by PLY itself from the same declared grammar
+            env = dict(os.environ, PYTHONDONTWRITEBYTECODE="1", PYTHONHASHSEED="0")
+            subprocess.run([sut.PYTHON, "-c", _WRITE_TAB, tmp], capture_output=True, text=True, env=env, cwd=tmp)
+            res["library_writes_table_file"] = False
+            if not os.path.exists(tabp0):
+                res = None
+                err = "no table file could be generated from the declared grammar"
         if res is None:
             # the declared grammar cannot be turned into tables at all: with a missing or stale cache the library cannot start.
             # That is a counter-example to the regeneration clause, reported by the first case (not a harness problem).
@@ -290,6 +310,8 @@ def fresh():
                 os.unlink(os.path.join(old, "simple_ddl_parser", "parsetab.py"))
                 json.dump([["CREATE TABLE t (a int);", {}, {}]], open(os.path.join(old, "w.json"), "w"))
                 r_old, _ = _run_work(old, os.path.join(old, "w.json"))
+                if r_old is not None and not os.path.exists(os.path.join(old, "simple_ddl_parser", "parsetab.py")):
+                    subprocess.run([sut.PYTHON, "-c", _WRITE_TAB, old], capture_output=True, text=True, env=dict(os.environ, PYTHONDONTWRITEBYTECODE="1", PYTHONHASHSEED="0"), cwd=old)
                 if r_old is not None and os.path.exists(os.path.join(old, "simple_ddl_parser", "parsetab.py")):
                     shutil.copyfile(os.path.join(old, "simple_ddl_parser", "parsetab.py"), os.path.join(tmp, "old_parsetab.py"))
             shutil.rmtree(old, ignore_errors=True)
@@ -309,6 +331,8 @@ def fresh():
                     json.dump([["CREATE TABLE t (a int);", {}, {}]], open(os.path.join(old, "w.json"), "w"))
                     r_old, _ = _run_work(old, os.path.join(old, "w.json"))
                     tabp = os.path.join(old, "simple_ddl_parser", "parsetab.py")
+                    if r_old is not None and not os.path.exists(tabp):
+                        subprocess.run([sut.PYTHON, "-c", _WRITE_TAB, old], capture_output=True, text=True, env=env, cwd=old)
                     if r_old is not None and os.path.exists(tabp) and _tabs(_load_tab(tabp))["sig"] != res_sig(tmp):
                         shutil.copyfile(tabp, os.path.join(tmp, st + "_parsetab.py"))
                         made[st] = done[0][7:]
@@ -494,13 +518,18 @@ def evaluate(case):
                 bad = [i for i, (x, y) in enumerate(zip(res["digests"], ref_dig)) if x != y]
                 D.append(diff(where, "results-differ-from-valid-cache", "equal digests", {"scripts": bad[:5]}))
             path = os.path.join(pkg, "parsetab.py")
+            # the property asks for regenerated TABLES and equal results, not for a rewritten file: a table file that is absent or still
+            # stale after the step is no violation by itself (the next start regenerates again); but a file that now CLAIMS the grammar's
+            # signature will be trusted by the next start, so it must hold the grammar's tables
+            if not os.path.exists(path):
+                continue
             try:
                 after = _tabs(_load_tab(path))
             except Exception as e:  # noqa
-                D.append(diff(where + ": table file afterwards", "cache-not-rewritten", "a loadable table file", type(e).__name__))
+                D.append(diff(where + ": table file afterwards", "cache-not-rewritten", "a loadable table file (or none)", type(e).__name__))
                 break
             if after["sig"] != F["tab"]["sig"] or after["ver"] != F["tab"]["ver"]:
-                D.append(diff(where + ": table file afterwards", "cache-not-rewritten", "grammar signature", short(after["sig"][:60])))
+                pass
             else:
                 d2, _, _ = cmp_tables(after, F["tab"], where + ": table file afterwards")
                 D += d2
